@@ -48,7 +48,7 @@ CFG = {
     "lean_files": ["SuccinctlyVerif/Props/C16.lean", "SuccinctlyVerif/Proof/YamlChunked.lean",
                    "SuccinctlyVerif/Proof/YamlKernels.lean", "SuccinctlyVerif/Model/YamlSimd.lean",
                    "SuccinctlyVerif/Spec/YamlKernels.lean"],
-    "generated": [],
+    "generated": ["C16:lanes"],
     "required_theorems": [
         "SV.Props.C16.find_quote_or_escape_kernel_eq_scalar", "SV.Props.C16.find_single_quote_kernel_eq_scalar",
         "SV.Props.C16.find_newline_kernel_eq_scalar", "SV.Props.C16.count_leading_spaces_kernel_eq_scalar",
@@ -56,12 +56,15 @@ CFG = {
         "SV.Props.C16.parse_anchor_name_kernel_eq_scalar", "SV.Props.C16.parse_anchor_name_eq_scalar",
         "SV.Props.C16.classify_yaml_chars_eq_spec", "SV.Props.C16.classify_sse2_is_low_half",
         "SV.Props.C16.kernels_level_independent", "SV.Props.C16.clamp_total",
+        "SV.Props.C16.lanes_generated_eq",
     ],
     "trusted_base": [
         "C16: lane semantics of _mm{,256}_cmpeq_epi8 / _or_si* / _movemask_epi8, u32::trailing_zeros, `!mask`, "
         "`mask &= mask - 1` as written in Model/YamlSimd.lean (cmpeq, por, movemask, ctz32, not32); str::trim / "
         "to_ascii_lowercase as Spec/YamlKernels.normalise; the lane DAGs and chunk loops are hand-transcribed from "
-        "x86.rs (not generated) and tied to the code by the per-level correspondence only",
+        "x86.rs; every lane DAG is additionally regenerated from x86.rs on each run (Generated/C16.lean, "
+        "tools/rs2lean.py kind \"lanes\") and proved equal to the hand-written lane (lanes_generated_eq); the chunk "
+        "loops around them are tied to the code by the per-level correspondence only",
         "C16 whole index: no model; three configurations of the implementation compared with each other "
         "(a defect shared by all three dispatch levels is invisible to this comparison)",
         "C16: util/simd/escape.rs kernels (contains_cr, find_json_escape; scalar under scalar-yaml, not clamped by "
@@ -75,4 +78,32 @@ CFG = {
     "explanation": "Lean theorems: every vector kernel model = scalar kernel for all inputs; correspondence: AVX2, SSE2 "
                    "and scalar kernels and the public entry points of three build/dispatch configurations vs the "
                    "proved models; whole YamlIndex + renderings compared across the three configurations",
+}
+
+
+_X86 = "src/yaml/simd/x86.rs"
+_CLS = ["return.newlines", "return.carriage_returns.then", "return.colons", "return.hyphens", "return.spaces",
+        "return.quotes_double", "return.quotes_single", "return.backslashes", "return.hash"]
+
+# Lane DAGs of every vector kernel of x86.rs, regenerated from source on every run
+# (lean name, file, rust fn, {"inputs": lane inputs, "outputs": mask outputs}); `mask#0` / `mask#1` =
+# the 32-byte main loop and the 16-byte tail step of an AVX2 kernel.
+EXTRACT = {
+    "lanes": [
+        ("yaml_classify_avx2", _X86, "classify_yaml_chars_avx2", {"inputs": ["chunk"], "outputs": _CLS}),
+        ("yaml_classify_sse2", _X86, "classify_yaml_chars_sse2", {"inputs": ["chunk"], "outputs": _CLS}),
+        ("yaml_newline_sse2", _X86, "find_newline_sse2", {"inputs": ["chunk"], "outputs": ["mask"]}),
+        ("yaml_newline_avx2", _X86, "find_newline_avx2", {"inputs": ["chunk"], "outputs": ["mask#0", "mask#1"]}),
+        ("yaml_quote_sse2", _X86, "find_quote_or_escape_sse2", {"inputs": ["chunk"], "outputs": ["mask"]}),
+        ("yaml_quote_avx2", _X86, "find_quote_or_escape_avx2", {"inputs": ["chunk"], "outputs": ["mask#0", "mask#1"]}),
+        ("yaml_squote_sse2", _X86, "find_single_quote_sse2", {"inputs": ["chunk"], "outputs": ["mask"]}),
+        ("yaml_squote_avx2", _X86, "find_single_quote_avx2", {"inputs": ["chunk"], "outputs": ["mask#0", "mask#1"]}),
+        ("yaml_spaces_sse2", _X86, "count_leading_spaces_sse2", {"inputs": ["chunk"], "outputs": ["mask"]}),
+        ("yaml_spaces_avx2", _X86, "count_leading_spaces_avx2", {"inputs": ["chunk"], "outputs": ["mask#0", "mask#1"]}),
+        ("yaml_block_nl_avx2", _X86, "find_block_scalar_end_avx2", {"inputs": ["chunk"], "outputs": ["nl_mask#0"]}),
+        ("yaml_block_sp_avx2", _X86, "find_block_scalar_end_avx2", {"inputs": ["next_chunk"], "outputs": ["space_mask"]}),
+        ("yaml_block_nl_sse2", _X86, "find_block_scalar_end_sse2", {"inputs": ["chunk"], "outputs": ["nl_mask#0"]}),
+        ("yaml_block_sp_sse2", _X86, "find_block_scalar_end_sse2", {"inputs": ["next_chunk"], "outputs": ["space_mask"]}),
+        ("yaml_anchor_avx2", _X86, "parse_anchor_name_avx2", {"inputs": ["chunk"], "outputs": ["definite_mask", "colon_mask"]}),
+    ],
 }
